@@ -149,6 +149,22 @@ func suiteV17(c *vctx) {
 				}
 			}
 			c.emit(fmt.Sprintf("pol.new %s %s", vxs(ty), vxs(cond)), res)
+			if ty == "zxcvbn" {
+				// the statement of condition_parser_exact, evaluated on the real constructor with the
+				// harness's own reading of the grammar: three words separated by white space, the kind, ">=", and
+				// a number written in decimal digits only that fits 64 bits (at most 4 for a score)
+				well := false
+				if f := strings.FieldsFunc(cond, unicode.IsSpace); len(f) == 3 && f[1] == ">=" && (f[0] == "score" || f[0] == "entropy" || f[0] == "time") && f[2] != "" {
+					digits := true
+					for _, ch := range []byte(f[2]) {
+						digits = digits && ch >= '0' && ch <= '9'
+					}
+					if v, okv := new(big.Int).SetString(f[2], 10); digits && okv && v.IsUint64() {
+						well = f[0] != "score" || v.Uint64() <= 4
+					}
+				}
+				c.emit("law.C17.condition_accepted_iff_wellformed "+vxs(cond), vtf((err == nil) == well))
+			}
 			// an unparsable policy stops the agent from starting
 			if ty != "" && err != nil && i%10 == 0 {
 				_, serr := newVAgent(c, fmt.Sprintf("polbad%d", i), 1, "", ty, cond, "")
